@@ -154,7 +154,11 @@ def cases(tier):
     for d in ((1, 2, 3) if tier == 'quick' else (1, 2, 3, 4)):
         npts = {1: 3, 2: 3, 3: 2, 4: 2}[d] if tier == 'quick' else {1: 4, 2: 4, 3: 3, 4: 2}[d]
         for first in range(5):
-            cs.append(dict(id="d%d-first%d" % (d, first), d=d, npts=npts, forced=[first], ncoord=3 if d <= 3 else 4))
+            if d == 1:
+                cs.append(dict(id="d%d-first%d" % (d, first), d=d, npts=npts, forced=[first], ncoord=3))
+            else:
+                for blk in range(d):        # (point, block) of the first request: finer cases = better load balance
+                    cs.append(dict(id="d%d-first%d-%d" % (d, first, blk), d=d, npts=npts, forced=[first, blk], ncoord=3))
     return cs
 
 
